@@ -433,6 +433,22 @@ func c15DecoderCases(c *Ctx) []c15Case {
 			add("ref", s[0], s[1], comps, []int{60, 20, 100, 85, 45}[i%5], "")
 		}
 	}
+	// long entropy-coded segments with dense restart markers: scans of tens of KiB with an RSTn
+	// every one or two MCUs, so that markers fall on every kind of internal buffer boundary of a
+	// decoder (a marker split across two reads, a marker at the start or end of a read)
+	for rep := 0; rep < c.N(40, 300); rep++ {
+		w, h := 8*rng.Range(24, 40), 8*rng.Range(12, 20)
+		comps := 1
+		if rep%4 == 3 {
+			comps = 3
+		}
+		k := c15Case{Src: "ref", W: w, H: h, Comps: comps, Content: []string{"noise", "gnoise"}[rep%2], Seed: rng.U64(), Opt: defaultOpts(comps, []int{95, 90, 98, 85}[rep%4])}
+		k.Opt.Restart = 1 + rep%2
+		if comps == 3 {
+			k.Opt.Sampling = "444"
+		}
+		cases = append(cases, k)
+	}
 	return cases
 }
 
